@@ -159,4 +159,13 @@ def np_max(I, args, kw):
     raise Unsupported("np.max of this value")
 
 
-EXT = {"numpy.max": np_max, "numpy.uint64": lambda I, a, k: "uint64"}
+def np_zeros_like(I, args, kw):
+    x = args[0]
+    if isinstance(x, LabelArr):
+        Z = I.ctx.fresh_fun("Z", Int, Pix, Int)
+        I.ctx.assume(forall([j_, p_], Z(j_, p_) == 0))
+        return LabelArr(I.ctx, Z, x.n, lead=x.lead)
+    raise Unsupported("np.zeros_like of this value")
+
+
+EXT = {"numpy.max": np_max, "numpy.zeros_like": np_zeros_like, "numpy.uint64": lambda I, a, k: "uint64"}
